@@ -139,8 +139,11 @@ claim('C01', 'proof',
       'triangulation"); generated mesh triangle/quad kernels (incl. the repaired planar quad), '
       'centroids, Sphere/Cone/Cylinder/arc closed forms; volume laws on a hand model. Faces '
       'with holes, meshes, polyfaces in random placements, every cyclic start, are decided by '
-      'an exact rational oracle on the real code.',
-      'Trusted: Lean kernel, py2lean, harness. "shoelace = Lebesgue area" and the divergence '
+      'an exact rational oracle on the real code. Model/HoleMerge transcribes the boundary-hole '
+      'merging (closest-pair choice, orientation flip, list surgery): shoelace(merged) = '
+      'shoelace(boundary) + sum shoelace(holes), hence area = boundary - holes for either input '
+      'winding; Model/Outward ties the literal volume loop to the proved functional.',
+      'Trusted: Lean kernel, py2lean, harness, model correspondence. "shoelace = Lebesgue area" and the divergence '
       'theorem for general closed polyfaces are used as definitions of the intended quantity, '
       'not proved; Polyface3D.volume loop, hole merging and Mesh2D.centroid loop are not '
       'generated (hand model + oracle). One open finding (get_outward_faces) affects volume.',
@@ -281,9 +284,16 @@ claim('C19', 'proof',
       's^2 so a sub-face by ratio has area ratio*A on the parent plane, scaled vertices stay in '
       'every half-space containing centre and vertices (0<=k<=1), the offset vertex formula is at '
       'distance d from both adjacent edges, LineSegment2D.offset is parallel at distance |d| on '
-      'the left. Trig/sqrt enter as law hypotheses witnessed over R (Props/C19Real).',
+      'the left. Trig/sqrt enter as law hypotheses witnessed over R (Props/C19Real). '
+      'Model/SubRects transcribes sub_rects_from_rect_ratio / _dimensions, '
+      'sub_faces_by_ratio_rectangle and the Polygon2D.offset loop: rectangle lists in closed '
+      'form, counts, total area = ratio x base x height in every branch, inside the parent for '
+      'ratio <= 0.9702 (the property quantifies over [0.01, 0.95]), pairwise separated, '
+      'congruent; offset keeps the vertex count, is vertex-wise the proved per-vertex formula '
+      'and commutes with rotating the vertex list. Polygon2D.offset, Polyline2D.offset and '
+      'perimeter_core_by_offset are also generated kernels.',
       'Trusted: Lean kernel, py2lean, harness, model correspondence. Not proved: simplicity / '
-      'non-overlap of offset loops, extract_rectangle, sub_rects_from_rect_* (oracle only).',
+      'non-overlap of offset loops, extract_rectangle (oracle only).',
       'DESIGN.md 4 C19')
 claim('C20', 'proof',
       'Lean 4 theorems on literal models of grid generation and vertex/face removal (index closed forms, filter alignment) + model/code correspondence; exact oracle incl. OBJ/STL round trips',
@@ -292,8 +302,14 @@ claim('C20', 'proof',
       '_domain_dimensions (num*dim = domain; equals the requested size iff it divides - the '
       'repaired cached-area defect in theorem form); remove_vertices/remove_faces_only keep '
       'faces, per-face data and re-indexed vertices aligned (filter/zip alignment, same points); '
-      'the STL quad split preserves area and Newell vector.',
-      'Trusted: Lean kernel, harness, model correspondence. Text-level OBJ/STL parsing, the inside '
-      'filter of from_polygon_grid and float accumulation in the grid loops are decided by the '
-      'oracle on the real code.',
+      'the STL quad split preserves area and Newell vector. Model/Interop transcribes the OBJ '
+      'and STL writers and readers at the level of token lines (all index forms, colour '
+      'unrolling, triangulate_quads, materials, the 7-digit STL format, welding in from_stl) and '
+      'Mesh2D.triangulated: read(write(m)) has the same vertices and faces for every option '
+      'combination, STL returns exactly the split triangles with the face normals, counts, '
+      'colour alignment.',
+      'Trusted: Lean kernel, harness, model correspondence; float printing / parsing is the '
+      'identity (OBJ) or 7-significant-digit rounding (STL) in the model. The inside filter of '
+      'from_polygon_grid, float accumulation in the grid loops, the binary STL reader and '
+      'multi-material files are decided by correspondence / the oracle only.',
       'DESIGN.md 4 C20')
